@@ -433,3 +433,26 @@ Definition catalog_plain (c : catalog) : bool := forallb (fun s => forallb table
 
 Definition codec_class (c : catalog) : Z :=
   if negb (builtin_only c) then 1 else if negb (catalog_plain c) then 2 else 0.
+
+(* ------------------------------------------------------------------ what the format keeps *)
+(* the catalog that comes back: an expression column has become the column named "", the
+   WHERE text is gone (identity on catalogs without such indexes) *)
+Definition lossy_idx_col (c : idx_col) : idx_col :=
+  IdxCol (ICColumn (ic_written_name (ic_what c))) (ic_desc c).
+Definition lossy_index (i : index) : index :=
+  Index (ix_name i) (map lossy_idx_col (ix_cols i)) (ix_unique i) (ix_hnsw i) None.
+Definition lossy_table (t : table) : table :=
+  Table (t_id t) (t_name t) (t_columns t) (t_pk t) (map lossy_index (t_indexes t)) (t_toast t).
+Definition lossy_schema (s : schema) : schema :=
+  Schema (s_id s) (s_name s) (map lossy_table (s_tables s)).
+Definition lossy_catalog (c : catalog) : catalog := map lossy_schema c.
+
+(* merging every schema of a stream into a catalog, as deserialize does; None = bail! *)
+Definition merge_all (ss : list schema) (c : catalog) : option catalog :=
+  fold_left (fun o s => match o with Some c' => merge_schema c' s | None => None end) ss (Some c).
+
+(* the catalog_length field of the header is a u64 *)
+Definition file_fits (c : catalog) : bool := zlen (enc_catalog c) <? 2 ^ 64.
+
+Definition is_builtin_name (n : str) : bool := zlist_eqb n name_root || zlist_eqb n name_syscat.
+Definition has_user_schema (c : catalog) : bool := existsb (fun s => negb (is_builtin_name (s_name s))) c.
